@@ -182,6 +182,15 @@ def reachFrom (same : Ver → Ver → Bool) (rules : List Rule) (a : Ver) : List
 def chainExistsB (same : Ver → Ver → Bool) (rules : List Rule) (a b : Ver) : Bool :=
   (reachFrom same rules a).any (fun r => same r.dst b)
 
+def Outcome.isFound : Outcome → Bool
+  | .found _ => true
+  | _ => false
+
+/-- the decision procedure the driver uses for "a valid chain exists" (proved correct in
+`Props/C15.chainExistsDec_iff`): the reachability closure, or the search itself on a fresh cache -/
+def chainExistsDec (rules : List Rule) (a b : Ver) : Bool :=
+  chainExistsB versionsMatched rules a b || (find Order.ident (Chain.ofRules rules) ⟨a, b⟩).2.isFound
+
 /-! ## step-by-step application: `conversionEventHandler` + `handleReviewRequest` -/
 
 structure Obj where
